@@ -321,9 +321,9 @@ def gen_script(rng, nblocks, T, R, oack, wrap, style=None, bs=512, last_len=0):
                 elif kind == "stale":
                     faults.append(["pkt", d, c, 0, ack(max(0, e - 2))])
                 elif kind == "foreign":
-                    faults.append(["pkt", d, c, rng.choice([1, 2]), rng.choice([ack(e), "0003000141", "", "ff"])])
+                    faults.append(["pkt", d, c, rng.choice([1, 2, 3]), rng.choice([ack(e), "0003000141", "", "ff"])])
                 elif kind == "foreign-ack":
-                    faults.append(["pkt", d, c, 1, ack(e)])
+                    faults.append(["pkt", d, c, rng.choice([1, 3]), ack(e)])
                 else:
                     faults.append(["pkt", rng.choice([T, T + 1, 2 * T, T - 1]), c, 0, ack(e)])
             for _ in range(budget):
@@ -359,7 +359,7 @@ def gen_script(rng, nblocks, T, R, oack, wrap, style=None, bs=512, last_len=0):
     if style == "random":
         for _ in range(rng.randrange(0, 6)):
             i = rng.randrange(0, len(script) + 1)
-            script.insert(i, rng.choice([["silence"], ["pkt", rng.randrange(0, 2 * T), rng.randrange(0, 4), rng.choice([0, 0, 1]),
+            script.insert(i, rng.choice([["silence"], ["pkt", rng.randrange(0, 2 * T), rng.randrange(0, 4), rng.choice([0, 0, 1, 3]),
                                                         rng.choice([ack(rng.randrange(0, 5)), "00", error_pkt(1), "0004"])]]))
     return script, style
 
